@@ -5,6 +5,49 @@ from .conn_common import replay_scenario, run_conn_check
 MON = [("log", CS.mon_c20)]
 
 
+def log_race_sessions(chk):
+    """the sender logging a line it is about to write and the reader logging a line that arrives at that very instant:
+    in these sessions every source line of ynca/helpers.py (the ring buffer) is a scheduling point, so the two threads
+    interleave statement by statement inside the buffer; the log must stay bounded by N and hold the most recent lines"""
+    import random
+
+    from .. import conntrace as CT
+
+    rng = random.Random(chk.seed + 2020)
+    for k in range(25 if chk.tier == "quick" else 400):
+        case = {"seed": rng.randrange(1 << 30), "N": rng.choice([1, 2, 3, 4, 6]), "switch_prob": rng.choice([0.3, 0.6, 0.9]), "n_cmds": rng.randrange(4, 12)}
+        s = CT.Session(case["seed"], respond=lambda line, idx: [], latency_us=0, log_size=case["N"], switch_prob=case["switch_prob"])
+        s.sim.trace_modules = {"ynca.helpers"}
+        sizes = []
+
+        def body(s, case=case, sizes=sizes):
+            c = s.connect()
+            s.sleep(0.25)
+            t0 = s.sim.now
+            # the device reports something at exactly the instants at which the sender gets to its next command
+            for i in range(case["n_cmds"] + 2):
+                s.dev.emit_at(t0 + i * 100_000, f"@MAIN:VOL=-{30 + i}.0\r\n".encode(), cause=None)
+            for i in range(case["n_cmds"]):
+                c.put("MAIN", "MUTE", "On" if i % 2 else "Off")
+            for _ in range(6):
+                s.sleep(0.25)
+                sizes.append(len(c.get_communication_log_items()))
+            s.final = c.get_communication_log_items()
+            c.close()
+
+        s.run(body)
+        chk.count_case({"log_race": case}, True)
+        rep = {"log_race_case": case}
+        if s.sim.failure is not None:
+            chk.violation("C20:log-race-no-termination", f"the session never came to rest: {s.sim.failure}", rep)
+        elif sizes and max(sizes) > case["N"]:
+            chk.violation("C20:log-unbounded", f"the log was created with room for {case['N']} entries and returned {max(sizes)} (sender and reader logging at the same instant)", rep)
+        elif any(e["k"] == "ThreadDied" for e in s.sim.events):
+            d = next(e for e in s.sim.events if e["k"] == "ThreadDied")
+            chk.violation("C20:log-race-thread-died", f"a library thread died while both threads were logging: {d.get('exc')}: {d.get('msg')}", rep)
+        chk.cov["log_race_line_points"] = chk.cov.get("log_race_line_points", 0) + getattr(s.sim, "n_line_points", 0)
+
+
 def api_log_sessions(chk):
     """the same log read through YncaApi.get_communication_log_items(): repeated reads with device lines and
     keep-alive traffic in between, no new user command"""
@@ -57,6 +100,7 @@ def api_log_sessions(chk):
 
 
 def run(chk):
+    log_race_sessions(chk)
     api_log_sessions(chk)
     return run_conn_check(
         chk, "C20", "Properties/C20.v", MON, dict(allow_delay=True, long_idle=True), 300, 6000,
